@@ -16,6 +16,8 @@ type stdVariant struct {
 	Name       string
 	Keep       string
 	KeepEnv    string // KEEP_NEXT_HOP_ROUTE in the environment while the service starts
+	Pool       int    // > 0: listen entry 0 gets this many UDP backends (.70+i:5080) ...
+	PoolTCP    bool   // ... plus the TCP backend .33:5080
 	Default    bool
 	MustRR     [3]string
 	NoReceived [3]string
@@ -72,6 +74,16 @@ func newStdSvc(v stdVariant) (*stdSvc, error) {
 			{"ua-a.test", ip(10)}, {"ua-b.test", ip(11)}, {"foreign.test", ip(60)},
 		},
 		GlobalHosts: [][2]string{{"hop-a.test", ip(99)}, {"global-hop.test", ip(21)}},
+	}
+	if v.Pool > 0 {
+		var bs []string
+		for i := 0; i < v.Pool; i++ {
+			bs = append(bs, fmt.Sprintf("udp://%s:5080", ip(70+i)))
+		}
+		if v.PoolTCP {
+			bs = append(bs, "tcp://"+ip(33)+":5080")
+		}
+		cfg.Listens[0].Backends = bs
 	}
 	if v.Default {
 		cfg.Routes = append(cfg.Routes, labRouteCfg{Dests: []string{"default"}, Protocol: "udp", NextHop: ip(22)})
